@@ -31,6 +31,7 @@ pub fn plan() -> Plan {
         thorough_histories: 40000,
         s5: None,
         enumerate_session_end: None,
+        enumerate_symbols: None,
     }
 }
 
